@@ -13,4 +13,4 @@ package internal
 //@   ensures[C08.finite]    err == nil && abs(real(lastValue)) <= 1.0e300 ==> fin(sensors.avgOf(s))
 //@   ensures[C08.hull]      err == nil && abs(real(lastValue)) <= 1.0e300 && (lastValue == old(sensors.avgOf(s)) || abs(real(lastValue)) >= 1.0e-270 || abs(real(old(sensors.avgOf(s)))) >= 1.0e-270) && configuration.CurrentConfig.TempRollingWindowSize >= 2 ==> min(old(sensors.avgOf(s)), lastValue) <= sensors.avgOf(s) && sensors.avgOf(s) <= max(old(sensors.avgOf(s)), lastValue)
 //@   ensures[C08.readfin]   err == nil ==> fin(lastValue)
-//@   modifies lastValue, s.(*sensors.HwmonSensor).MovingAvg, s.(*sensors.FileSensor).MovingAvg, s.(*sensors.CmdSensor).MovingAvg, s.(*sensors.VirtualSensor).Value, lastReadFailed, procWorld, started
+//@   modifies lastValue, lastAvgRead, s.(*sensors.HwmonSensor).MovingAvg, s.(*sensors.FileSensor).MovingAvg, s.(*sensors.CmdSensor).MovingAvg, s.(*sensors.VirtualSensor).Value, lastReadFailed, procWorld, started
